@@ -118,7 +118,9 @@ def _case(draw):
     linked = {f[1][2:] for _, bl in linkfiles for b in bl if not b["new"] for f in b["fields"] if f[0] == "Path"}
     for target in draw(st.lists(st.sampled_from(names), max_size=2, unique=True)):
         # an entry hidden by its .cap file is not listed any more: a link-file override of it has no documented meaning
-        caps.append([target, list(draw(_override_fields(allow_hide=target not in linked)))])
+        # what follows the block in the .cap file (only its first block counts): nothing, blank lines, a comment, another block
+        tail = draw(st.sampled_from(["", "", "\n", "\n\n", "# a comment at the end\n", "\n# comment\n", "\nName=second block\nNumb=9\n"]))
+        caps.append([target, list(draw(_override_fields(allow_hide=target not in linked))), tail])
     return {"children": children, "linkfiles": linkfiles, "caps": caps,
             "extstrip": draw(st.sampled_from(["none", "nonencoded", "full"])), "depth": depth}
 
@@ -172,8 +174,9 @@ def _build(case):
         linktexts[lf] = text
         spec.append([pre + lf, "f", text])
     captexts = {}
-    for target, fields in case["caps"]:
-        text = _block_text({"fields": fields})
+    for cap in case["caps"]:
+        target, fields = cap[0], cap[1]
+        text = _block_text({"fields": fields}) + (cap[2] if len(cap) > 2 else "")
         captexts[target] = text
         spec.append([pre + ".cap/" + target, "f", text])
     return spec, dsel, linktexts, captexts
